@@ -148,6 +148,14 @@ case("reply_always_plus_success", "an always method and a success method under o
 case("reply_success_plus_always", "a success method and then an always method under one reply name (other declaration order)",
      contract(NEW + INST + OK_S + f"    #[sv::msg(reply, handlers=[h], reply_on=always)]{E}\n    fn on_any(&self, _ctx: ReplyCtx, result: SubMsgResult, {PAY}) -> StdResult<Response> {{ Ok(Response::new()) }}\n", attrs=R),
      contract(NEW + INST + OK_S + f"    #[sv::msg(reply, handlers=[h2], reply_on=always)]\n    fn on_any(&self, _ctx: ReplyCtx, result: SubMsgResult, {PAY}) -> StdResult<Response> {{ Ok(Response::new()) }}\n", attrs=R))
+OK_E2 = OK_E.replace("fn on_err(", "fn on_err2(")
+OK_S2 = OK_S.replace("fn on_ok(", "fn on_ok2(")
+case("reply_three_methods_sse", "three methods under one reply name: success, error, error (the third repeats the outcome of the SECOND)",
+     contract(NEW + INST + OK_S + OK_E + OK_E2.replace("reply_on=error)]", "reply_on=error)]" + E), attrs=R),
+     contract(NEW + INST + OK_S + OK_E + OK_E2.replace("handlers=[h]", "handlers=[h2]"), attrs=R))
+case("reply_three_methods_ess", "three methods under one reply name: error, success, success",
+     contract(NEW + INST + OK_E + OK_S + OK_S2.replace("reply_on=success)]", "reply_on=success)]" + E), attrs=R),
+     contract(NEW + INST + OK_E + OK_S + OK_S2.replace("handlers=[h]", "handlers=[h2]"), attrs=R))
 case("reply_payload_type_mismatch", "merged reply methods with different payload types",
      contract(NEW + INST + "    #[sv::msg(reply, handlers=[h], reply_on=success)]\n    fn on_ok(&self, _ctx: ReplyCtx, p: u32) -> StdResult<Response> { Ok(Response::new()) }" + E + "\n"
               + "    #[sv::msg(reply, handlers=[h], reply_on=error)]\n    fn on_err(&self, _ctx: ReplyCtx, error: String, p: String) -> StdResult<Response> { Ok(Response::new()) }\n", attrs=R),
